@@ -33,10 +33,10 @@ REAL = ["BPTK_Py.modeling.dataCollector.DataCollector.collect_agent_statistics",
         "(get_df_for_agent, run_scenario: df/dict/json assembly)", "BPTK_Py.bptk.run_scenarios", "BPTK_Py.modeling.simultaneousScheduler",
         "BPTK_Py.scenariomanager.scenario_manager_hybrid", "pandas"]
 STUB = ["HybridRunner scenario threads run serially (SerialThread)", "agents/model/collector are harness subclasses that snapshot the population"]
-ASSUMPTIONS = ["every agent of a type carries the same property names (the property speaks of 'that property over exactly those agents')",
+ASSUMPTIONS = ["every agent of a type carries the properties x and n (the property speaks of 'that property over exactly those agents'); a third numeric property y is carried by the agents with odd ids only and is judged for presence, total, minimum and maximum over its carriers, not for its mean",
                "requested states occur at least once during the run (a state that never occurs has no column to compare)"]
 FAULT_KINDS = []
-PROBES = ["group_with_distinct_min_max_mean", "state_empty_then_populated", "negative_and_fractional_values", "agents_deleted_mid_run",
+PROBES = ["property_carried_by_some_agents_only", "group_with_distinct_min_max_mean", "state_empty_then_populated", "negative_and_fractional_values", "agents_deleted_mid_run",
           "format_df", "format_dict", "format_json", "negative_stop_time", "two_scenarios_of_a_class_path_manager"]
 EXHAUSTIVE = {"quick": False, "thorough": False}
 PTYPES = ["total", "min", "max", "mean"]
@@ -117,12 +117,16 @@ def check_stats(res, stats, snaps):
                         res.violate("C13.1-property-missing", {"time": t, "type": typ, "state": st, "property": p})
                         return rich
                     for agg in PTYPES:
+                        if p == "y" and agg == "mean":
+                            continue    # only some agents carry y: "mean over exactly those agents" is not defined, total/min/max are
                         if agg not in g[p] or g[p][agg] is None or not close(g[p][agg], e[p][agg]):
                             res.violate("C13.1-aggregate", {"time": t, "type": typ, "state": st, "property": p, "aggregate": agg,
                                                             "reported": g[p].get(agg), "expected": float(e[p][agg]), "count": e["count"]})
                             return rich
                     if e["count"] >= 2 and len({e[p]["min"], e[p]["max"], e[p]["mean"]}) == 3:
                         rich = True
+                    if p == "y" and len(snaps[t]) and any(typ == a[1] and "y" not in a[3] for a in snaps[t]):
+                        res.probe("property_carried_by_some_agents_only")
     return rich
 
 
